@@ -21,6 +21,7 @@ the parsed regular expression (repair a6b299c).
 Round 6: numeric text rewrites written as regular expressions are anchored on
 the left (judged on the parsed pattern).
 Review of the repairs: simplify goes through the sign cases of an absolute value one at a time when one will do, and on to the next while the result is None.
+Round 7: _denominator's pattern literal is compiled and tried on a table of divisions - every divisor has to come back (C12.m).
 NOT decided: everything that depends on sympy and on the sufficiency of random
 test points - the core of the property.
 """
@@ -28,7 +29,7 @@ import ast
 import re
 
 from ..core import rule
-from ..srcmodel import AnalysisError, walk_no_nested, unparse, norm_stmt
+from ..srcmodel import AnalysisError, walk_no_nested, unparse, norm_stmt, enclosing_stmt
 from .. import terms as T
 from .. import siblings as SB
 from .common import *
@@ -559,3 +560,27 @@ def a_case_without_solution_contributes_nothing(ctx):
                                   and isinstance(x.comparators[0], ast.Constant) and x.comparators[0].value is None for x in ast.walk(w.test)) for w in loops)
         ctx.check(goes_on, 'simplify#next-case', 'a case without solution is followed by the next (while <result> is None)',
                   'simplify simplifies one sign case (%s) and takes its result as it is: when that case contradicts the other lines the answer is None although another case has solutions' % ' '.join(unparse(c2).split())[:70], f, st)
+
+
+@rule('C12.m', min_instances=8)
+def every_divisor_is_found(ctx):
+    """simplify multiplies an inequality through by its divisors and needs a sign case for each divisor that holds a variable: _denominator finds them with a regular expression over the placeholder-simplified text. The pattern is a constant of the source; it is compiled and tried on a table of divisions as users and sympy write them - with and without blanks around the slash, with a power, with a parenthesis marker: every divisor of the table has to come back (a pattern that lost the `\\s*` after the slash finds no divisor in 'x0 / x1 <= 2', and simplify returns a single case that is wrong on one side of the divisor's zero)"""
+    import re
+    f = ctx.func('mystic.symbolic:_denominator')
+    calls = calls_where(f.node, lambda c: callee_text(c).split('.')[-1] in ('findall', 'finditer') and c.args and isinstance(c.args[0], ast.Constant) and isinstance(c.args[0].value, str), include_lambda=True)
+    ctx.need(calls, '_denominator: no re.findall(<pattern literal>, ...) found')
+    pat = calls[0].args[0].value
+    try:
+        rx = re.compile(pat)
+    except re.error as e:
+        ctx.need(False, '_denominator: the pattern does not compile: %s' % e)
+    table = (('x0/x1', 'x1'), ('x0 / x1', 'x1'), ('x0 /x1', 'x1'), ('x0/ x1 <= 2', 'x1'), ('3 / x1 + x0', 'x1'), ('x0/$', '$'), ('x0 / $ < 2', '$'),
+             ('x0/x1**2', 'x1**2'), ('x0 / x1**2', 'x1**2'), ('a/$**$', '$**$'), ('x0/x1 + x2 / x3', 'x3'), ('x0/x1 + x2 / x3', 'x1'))
+    for text, want in table:
+        found = []
+        for m_ in rx.finditer(text):
+            g = m_.groups()
+            found.append((''.join(x or '' for x in g) if g else m_.group(0)).strip('/').strip())
+        ctx.check(want in found, '_denominator#%s' % text.replace(' ', '_'), 'the divisor %s of %r is found' % (want, text),
+                  "_denominator's pattern %r finds %s in %r, not the divisor %s: simplify then makes no sign case for it and the simplified system is wrong where the divisor is negative"
+                  % (pat, found or 'nothing', text, want), f, enclosing_stmt(calls[0]))
